@@ -132,11 +132,10 @@ Theorem C03_written_is_legal : forall p k v c ss c', p <> PBinaryLE -> wt v = tr
 Proof. exact written_is_legal. Qed.
 Print Assumptions C03_written_is_legal.
 
-(* NOT accepted (candidate finding, see NOTES.md): the compact specification's TEXT encodes a bool
-   element `false` as the byte 0 (all Apache implementations write 2 and read anything but 1 as false);
-   pilota's compact reader rejects 0 *)
-Theorem C03_alt_compact_bool_elem_zero_refuted :
-  read_val PCompact 9 TList (mkS [x11; x00] r0) = Err EInvalidData /\
+(* a bool element `false` spelled 0 (the compact specification's text) or 2 (the Apache libraries) -- both
+   accepted since fix F-03a; both are covered by C03_legal_read_back (annotation byte of SBool) *)
+Theorem C03_alt_compact_bool_elem_zero :
+  read_val PCompact 9 TList (mkS [x11; x00] r0) = Ok (VList TBool [VBool false], mkS [] r0) /\
   read_val PCompact 9 TList (mkS [x11; x02] r0) = Ok (VList TBool [VBool false], mkS [] r0).
-Proof. exact compact_bool_elem_zero_rejected. Qed.
-Print Assumptions C03_alt_compact_bool_elem_zero_refuted.
+Proof. exact compact_bool_elem_zero_accepted. Qed.
+Print Assumptions C03_alt_compact_bool_elem_zero.
